@@ -1,1 +1,779 @@
-fn main() {}
+//! Engine `tls` (C18, C19): the real `actix-tls` acceptors and connectors driven through the line
+//! protocol.  See `lean/Driver/Tls.lean` for the model side and `props/C18.json`, `props/C19.json`.
+//!
+//! C19 cases (`case <name> kind=conn eps=L4,C4,..`): real loopback listeners / closed ports, the real
+//! `ResolverService`, `TcpConnectorService`, `ConnectorService`, custom `Resolve` impls that log
+//! their calls, and (kind=tlsconn) the real rustls-0.23 / OpenSSL connector services against
+//! in-process TLS servers with run-time generated certificates.
+use std::{
+    cell::RefCell,
+    io::Write,
+    net::{IpAddr, SocketAddr, TcpListener},
+    rc::Rc,
+    time::Duration,
+};
+
+use actix_service::Service;
+use actix_tls::connect::{
+    tcp::TcpConnector, ConnectError, ConnectInfo, Connector, Host, Resolve, Resolver,
+};
+use futures_core::future::LocalBoxFuture;
+use vh::*;
+
+mod conn {
+    use super::*;
+
+    /// endpoint kinds of a `kind=conn` case
+    #[derive(Clone, Copy, PartialEq, Debug)]
+    pub enum EpKind {
+        L4,
+        C4,
+        L6,
+        C6,
+    }
+
+    pub struct Ep {
+        pub kind: EpKind,
+        pub addr: SocketAddr,
+        pub listener: Option<TcpListener>,
+        /// closed port: a socket that is bound (so nobody else can get the port while the case
+        /// runs) but never listens, so every connect is refused
+        pub _reserved: Option<socket2::Socket>,
+    }
+
+    pub fn parse_kind(s: &str) -> Option<EpKind> {
+        Some(match s {
+            "L4" => EpKind::L4,
+            "C4" => EpKind::C4,
+            "L6" => EpKind::L6,
+            "C6" => EpKind::C6,
+            _ => return None,
+        })
+    }
+
+    pub fn make_ep(kind: EpKind, taken: &[u16]) -> std::io::Result<Ep> {
+        for _ in 0..50 {
+            let ep = make_ep1(kind)?;
+            // distinct port numbers inside one case (the two address families allocate independently)
+            if !taken.contains(&ep.addr.port()) {
+                return Ok(ep);
+            }
+        }
+        Err(std::io::Error::new(std::io::ErrorKind::Other, "no distinct port"))
+    }
+
+    fn make_ep1(kind: EpKind) -> std::io::Result<Ep> {
+        use socket2::{Domain, Socket, Type};
+        let (bind, dom): (SocketAddr, Domain) = match kind {
+            EpKind::L4 | EpKind::C4 => ("127.0.0.1:0".parse().unwrap(), Domain::IPV4),
+            EpKind::L6 | EpKind::C6 => ("[::1]:0".parse().unwrap(), Domain::IPV6),
+        };
+        match kind {
+            EpKind::L4 | EpKind::L6 => {
+                let l = TcpListener::bind(bind)?;
+                let addr = l.local_addr()?;
+                l.set_nonblocking(true)?;
+                Ok(Ep { kind, addr, listener: Some(l), _reserved: None })
+            }
+            _ => {
+                let s = Socket::new(dom, Type::STREAM, None)?;
+                s.bind(&bind.into())?;
+                let addr = s.local_addr()?.as_socket().unwrap();
+                Ok(Ep { kind, addr, listener: None, _reserved: Some(s) })
+            }
+        }
+    }
+
+    /// request type: either a `String` (the crate's own `Host for String`) or a custom `Host` impl
+    #[derive(Clone, Debug)]
+    pub enum HostReq {
+        S(String),
+        H(String, Option<u16>),
+    }
+    impl Host for HostReq {
+        fn hostname(&self) -> &str {
+            match self {
+                HostReq::S(s) => Host::hostname(s),
+                HostReq::H(h, _) => h,
+            }
+        }
+        fn port(&self) -> Option<u16> {
+            match self {
+                HostReq::S(s) => Host::port(s),
+                HostReq::H(_, p) => *p,
+            }
+        }
+    }
+
+    /// address template of a resolver script: endpoint, or ip + (fixed port | the port passed to lookup)
+    #[derive(Clone, Debug)]
+    pub enum AddrT {
+        Fixed(SocketAddr),
+        IpP(IpAddr),
+    }
+
+    pub struct ScriptResolver {
+        pub script: Option<Vec<AddrT>>, // None = fail
+        pub log: Rc<RefCell<Vec<(String, u16)>>>,
+    }
+    impl Resolve for ScriptResolver {
+        fn lookup<'a>(
+            &'a self,
+            host: &'a str,
+            port: u16,
+        ) -> LocalBoxFuture<'a, Result<Vec<SocketAddr>, Box<dyn std::error::Error>>> {
+            Box::pin(async move {
+                self.log.borrow_mut().push((host.to_string(), port));
+                tokio::task::yield_now().await; // exercise the Pending path of LookupCustom
+                match &self.script {
+                    None => Err("scripted resolver failure".into()),
+                    Some(v) => Ok(v
+                        .iter()
+                        .map(|a| match a {
+                            AddrT::Fixed(sa) => *sa,
+                            AddrT::IpP(ip) => SocketAddr::new(*ip, port),
+                        })
+                        .collect()),
+                }
+            })
+        }
+    }
+
+    pub struct Ctx {
+        pub eps: Vec<Ep>,
+    }
+
+    impl Ctx {
+        pub fn canon(&self, a: &SocketAddr) -> String {
+            for (i, e) in self.eps.iter().enumerate() {
+                if e.addr == *a {
+                    return format!("e{i}");
+                }
+            }
+            match a {
+                SocketAddr::V4(v) => format!("{}:{}", v.ip(), self.canon_port(v.port())),
+                SocketAddr::V6(v) => format!("[{}]:{}", v.ip(), self.canon_port(v.port())),
+            }
+        }
+        /// a port number that is an endpoint's port is written `@<i>`
+        pub fn canon_port(&self, p: u16) -> String {
+            match self.eps.iter().position(|e| e.addr.port() == p) {
+                Some(i) => format!("@{i}"),
+                None => p.to_string(),
+            }
+        }
+        /// `e<i>` | `ip:port` | `[v6]:port` | with `@i` for an endpoint's port
+        pub fn parse_addr(&self, s: &str) -> Option<SocketAddr> {
+            if let Some(i) = s.strip_prefix('e') {
+                return self.eps.get(i.parse::<usize>().ok()?).map(|e| e.addr);
+            }
+            self.subst(s)?.parse().ok()
+        }
+        pub fn parse_addr_t(&self, s: &str) -> Option<AddrT> {
+            if let Some(ip) = s.strip_suffix(":P") {
+                let ip = ip.trim_start_matches('[').trim_end_matches(']');
+                return Some(AddrT::IpP(ip.parse().ok()?));
+            }
+            self.parse_addr(s).map(AddrT::Fixed)
+        }
+        /// replace every `@<i>` by the decimal port of endpoint i, `~` alone is the empty string
+        pub fn subst(&self, s: &str) -> Option<String> {
+            if s == "~" {
+                return Some(String::new());
+            }
+            let mut out = String::new();
+            let cs: Vec<char> = s.chars().collect();
+            let mut i = 0;
+            while i < cs.len() {
+                if cs[i] == '@' {
+                    let mut j = i + 1;
+                    while j < cs.len() && cs[j].is_ascii_digit() {
+                        j += 1;
+                    }
+                    if j == i + 1 {
+                        return None;
+                    }
+                    let k: usize = cs[i + 1..j].iter().collect::<String>().parse().ok()?;
+                    out.push_str(&self.eps.get(k)?.addr.port().to_string());
+                    i = j;
+                } else {
+                    out.push(cs[i]);
+                    i += 1;
+                }
+            }
+            Some(out)
+        }
+        /// drain the accept queues: number of connections each live listener received
+        pub fn accepts(&self, expect: Option<usize>) -> Vec<Option<usize>> {
+            let mut out: Vec<Option<usize>> = self.eps.iter().map(|e| e.listener.as_ref().map(|_| 0)).collect();
+            let t0 = std::time::Instant::now();
+            loop {
+                for (i, e) in self.eps.iter().enumerate() {
+                    if let Some(l) = &e.listener {
+                        while let Ok((_s, _)) = l.accept() {
+                            *out[i].as_mut().unwrap() += 1;
+                        }
+                    }
+                }
+                match expect {
+                    // the connector reported a connection to listener `i`: its accept must show up
+                    Some(i) if out.get(i).copied().flatten() == Some(0) && t0.elapsed() < Duration::from_secs(2) => {
+                        std::thread::sleep(Duration::from_millis(2));
+                    }
+                    _ => break,
+                }
+            }
+            out
+        }
+    }
+
+    pub fn fmt_acc(v: &[Option<usize>]) -> String {
+        let xs: Vec<String> = v.iter().map(|x| x.map(|n| n.to_string()).unwrap_or_else(|| "-".into())).collect();
+        format!("[{}]", xs.join(","))
+    }
+
+    pub fn err_str(e: &ConnectError) -> String {
+        match e {
+            ConnectError::Resolver(_) => "resolver".into(),
+            ConnectError::NoRecords => "norecords".into(),
+            ConnectError::InvalidInput => "invalidinput".into(),
+            ConnectError::Unresolved => "unresolved".into(),
+            ConnectError::Io(e) => match e.raw_os_error() {
+                Some(c) => format!("io:{c}"),
+                None => format!("io:{:?}", e.kind()),
+            },
+        }
+    }
+}
+use conn::*;
+
+/// independent reference for one TCP connect (same socket calls as `connect/tcp.rs::connect`), used
+/// by the T3 oracle only
+async fn direct_connect(addr: SocketAddr, local: Option<IpAddr>) -> std::io::Result<tokio::net::TcpStream> {
+    match local {
+        Some(ip) => {
+            let s = if ip.is_ipv4() { tokio::net::TcpSocket::new_v4()? } else { tokio::net::TcpSocket::new_v6()? };
+            s.bind(SocketAddr::new(ip, 0))?;
+            s.connect(addr).await
+        }
+        None => tokio::net::TcpStream::connect(addr).await,
+    }
+}
+
+struct ConnOp {
+    via: String,
+    res: Option<Option<Vec<AddrT>>>, // None = default resolver; Some(None)=err; Some(Some(v))=ok
+    host: HostReq,
+    with: Option<SocketAddr>,
+    steps: Vec<Step>,
+}
+enum Step {
+    Port(u16),
+    Addr(Option<SocketAddr>),
+    Addrs(Vec<SocketAddr>),
+    Local(IpAddr),
+}
+
+fn parse_conn_op(cx: &Ctx, ws: &[&str]) -> Option<ConnOp> {
+    // conn <via> <res> <host> [steps..]
+    if ws.len() < 4 {
+        return None;
+    }
+    let via = ws[1].to_string();
+    if !["full", "resolve", "tcp"].contains(&ws[1]) {
+        return None;
+    }
+    let res = if ws[2].starts_with("dflt=") {
+        None
+    } else if ws[2] == "err" {
+        Some(None)
+    } else if let Some(l) = ws[2].strip_prefix("ok=") {
+        let mut v = vec![];
+        for a in l.split(';').filter(|x| !x.is_empty()) {
+            v.push(cx.parse_addr_t(a)?);
+        }
+        Some(Some(v))
+    } else {
+        return None;
+    };
+    let host = if let Some(s) = ws[3].strip_prefix("s=") {
+        HostReq::S(cx.subst(s)?)
+    } else if let Some(s) = ws[3].strip_prefix("h=") {
+        let (h, p) = s.rsplit_once(',')?;
+        let p = if p == "-" { None } else { Some(cx.subst(p)?.parse::<u16>().ok()?) };
+        HostReq::H(cx.subst(h)?, p)
+    } else {
+        return None;
+    };
+    let mut with = None;
+    let mut steps = vec![];
+    for (k, w) in ws[4..].iter().enumerate() {
+        if let Some(a) = w.strip_prefix("with=") {
+            if k != 0 {
+                return None;
+            }
+            with = Some(cx.parse_addr(a)?);
+        } else if let Some(p) = w.strip_prefix("port=") {
+            steps.push(Step::Port(cx.subst(p)?.parse().ok()?));
+        } else if let Some(a) = w.strip_prefix("addr=") {
+            steps.push(Step::Addr(if a == "none" { None } else { Some(cx.parse_addr(a)?) }));
+        } else if let Some(l) = w.strip_prefix("addrs=") {
+            let mut v = vec![];
+            for a in l.split(';').filter(|x| !x.is_empty()) {
+                v.push(cx.parse_addr(a)?);
+            }
+            steps.push(Step::Addrs(v));
+        } else if let Some(ip) = w.strip_prefix("local=") {
+            steps.push(Step::Local(ip.parse().ok()?));
+        } else {
+            return None;
+        }
+    }
+    Some(ConnOp { via, res, host, with, steps })
+}
+
+fn build_info(op: &ConnOp) -> (ConnectInfo<HostReq>, Option<IpAddr>) {
+    let mut ci = match op.with {
+        Some(a) => ConnectInfo::with_addr(op.host.clone(), a),
+        None => ConnectInfo::new(op.host.clone()),
+    };
+    let mut local = None;
+    for s in &op.steps {
+        ci = match s {
+            Step::Port(p) => ci.set_port(*p),
+            Step::Addr(a) => ci.set_addr(*a),
+            Step::Addrs(v) => ci.set_addrs(v.clone()),
+            Step::Local(ip) => {
+                local = Some(*ip);
+                ci.set_local_addr(*ip)
+            }
+        };
+    }
+    (ci, local)
+}
+
+fn is_ip_literal(s: &str) -> Option<IpAddr> {
+    s.parse().ok()
+}
+
+fn run_conn_op(rt: &tokio::runtime::Runtime, cx: &Ctx, op: &ConnOp, rep: &mut Report) -> String {
+    let log = Rc::new(RefCell::new(vec![]));
+    let resolver = match &op.res {
+        None => Resolver::default(),
+        Some(script) => Resolver::custom(ScriptResolver { script: script.clone(), log: log.clone() }),
+    };
+    let (ci, local) = build_info(op);
+    // facts about the request, taken before it is consumed (inputs of the oracle)
+    let preset: Vec<SocketAddr> = ci.addrs().collect();
+    let hostname = ci.hostname().to_string();
+    let eff_port = ci.port();
+    let literal = is_ip_literal(&hostname);
+
+    enum Out {
+        Resolved(Vec<SocketAddr>, String, u16),
+        Stream(SocketAddr, Option<IpAddr>, actix_rt::net::TcpStream),
+        Err(ConnectError),
+        Watchdog,
+        Panic,
+    }
+    let via = op.via.clone();
+    let r = catch(|| {
+        rt.block_on(async {
+            let fut = async {
+                match via.as_str() {
+                    "resolve" => match resolver.service().call(ci).await {
+                        Ok(ci) => Out::Resolved(ci.addrs().collect(), ci.hostname().to_string(), ci.port()),
+                        Err(e) => Out::Err(e),
+                    },
+                    "tcp" => match TcpConnector::default().service().call(ci).await {
+                        Ok(c) => {
+                            let (io, _) = c.into_parts();
+                            Out::Stream(io.peer_addr().unwrap(), io.local_addr().ok().map(|a| a.ip()), io)
+                        }
+                        Err(e) => Out::Err(e),
+                    },
+                    _ => match Connector::new(resolver).service().call(ci).await {
+                        Ok(c) => {
+                            let (io, _) = c.into_parts();
+                            Out::Stream(io.peer_addr().unwrap(), io.local_addr().ok().map(|a| a.ip()), io)
+                        }
+                        Err(e) => Out::Err(e),
+                    },
+                }
+            };
+            match tokio::time::timeout(Duration::from_secs(20), fut).await {
+                Ok(o) => o,
+                Err(_) => Out::Watchdog,
+            }
+        })
+    })
+    .unwrap_or(Out::Panic);
+
+    let lookups = log.borrow().clone();
+    let lk = if op.res.is_none() {
+        "-".to_string()
+    } else {
+        format!("[{}]", lookups.iter().map(|(h, p)| format!("{}:{}", if h.is_empty() { "~" } else { h }, cx.canon_port(*p))).collect::<Vec<_>>().join(","))
+    };
+    let connected_to = match &r {
+        Out::Stream(peer, _, _) => cx.eps.iter().position(|e| e.addr == *peer),
+        _ => None,
+    };
+    let acc = cx.accepts(connected_to);
+    let res = match &r {
+        Out::Resolved(addrs, h, p) => format!(
+            "ok addrs=[{}] host={} port={}",
+            addrs.iter().map(|a| cx.canon(a)).collect::<Vec<_>>().join(";"),
+            if h.is_empty() { "~" } else { h },
+            cx.canon_port(*p)
+        ),
+        Out::Stream(peer, l, _) => match local {
+            Some(_) => format!("ok peer={} local={}", cx.canon(peer), l.map(|x| x.to_string()).unwrap_or_else(|| "?".into())),
+            None => format!("ok peer={}", cx.canon(peer)),
+        },
+        Out::Err(e) => format!("err {}", err_str(e)),
+        Out::Watchdog => "watchdog".into(),
+        Out::Panic => "panic".into(),
+    };
+
+    // ---------------- T3: the property, evaluated on the real behaviour ----------------
+    let mut fails: Vec<String> = vec![];
+    let mut fail = |m: String| fails.push(m);
+    if matches!(r, Out::Panic | Out::Watchdog) {
+        fail(format!("connector did not return: {res}"));
+    }
+    let goes_to_resolver = via != "tcp" && preset.is_empty() && literal.is_none();
+    if op.res.is_some() {
+        // (a) pre-set addresses are never re-resolved, (b) IP literals are not resolved
+        if !goes_to_resolver && !lookups.is_empty() {
+            fail(format!("resolver consulted ({lk}) although preset={} literal={}", preset.len(), literal.is_some()));
+        }
+        if goes_to_resolver && lookups != vec![(hostname.clone(), eff_port)] {
+            fail(format!("resolver calls {lk}, expected exactly one for ({hostname},{eff_port})"));
+        }
+    }
+    // expected final address list (None = the request fails before dialling)
+    let expected_addrs: Result<Vec<SocketAddr>, &str> = if !preset.is_empty() {
+        Ok(preset.clone())
+    } else if via == "tcp" {
+        Err("unresolved")
+    } else if let Some(ip) = literal {
+        Ok(vec![SocketAddr::new(ip, eff_port)])
+    } else {
+        match &op.res {
+            Some(None) => Err("resolver"),
+            Some(Some(v)) if v.is_empty() => Err("norecords"),
+            Some(Some(v)) => Ok(v
+                .iter()
+                .map(|a| match a {
+                    AddrT::Fixed(sa) => *sa,
+                    AddrT::IpP(ip) => SocketAddr::new(*ip, eff_port),
+                })
+                .collect()),
+            None => Err("?"), // OS resolver: not judged here beyond the correspondence
+        }
+    };
+    match (&expected_addrs, &r) {
+        (Err("?"), _) => {}
+        (Err(want), Out::Err(e)) => {
+            if err_str(e) != *want {
+                fail(format!("expected error {want}, got {}", err_str(e)));
+            }
+        }
+        (Err(want), _) => fail(format!("expected error {want}, got {res}")),
+        (Ok(addrs), Out::Resolved(got, h, p)) => {
+            if got != addrs || *h != hostname || *p != eff_port {
+                fail(format!("resolver service returned {res}, expected addresses {:?}", addrs.iter().map(|a| cx.canon(a)).collect::<Vec<_>>()));
+            }
+        }
+        (Ok(addrs), _) if via != "resolve" => {
+            // ordered fallback: the reference dials each address independently, in order
+            let mut first_ok = None;
+            let mut last_err = None;
+            for a in addrs {
+                match rt.block_on(async { tokio::time::timeout(Duration::from_secs(20), direct_connect(*a, local)).await }) {
+                    Ok(Ok(_s)) => {
+                        first_ok = Some(*a);
+                        break;
+                    }
+                    Ok(Err(e)) => last_err = Some(e),
+                    Err(_) => {
+                        rep.note("reference connect timed out; ordered-fallback oracle skipped for this op");
+                        first_ok = None;
+                        last_err = None;
+                        break;
+                    }
+                }
+            }
+            let _ = cx.accepts(None); // discard the accepts caused by the reference dialling
+            match (first_ok, last_err, &r) {
+                (Some(a), _, Out::Stream(peer, l, _)) => {
+                    if *peer != a {
+                        fail(format!("connected to {} but the first connectable address in order is {}", cx.canon(peer), cx.canon(&a)));
+                    }
+                    if let (Some(want), Some(got)) = (local, l) {
+                        if want != *got {
+                            fail(format!("local address {got} but {want} was requested"));
+                        }
+                    }
+                    // exactly one accept, at that listener; later (and earlier) listeners untouched
+                    for (i, n) in acc.iter().enumerate() {
+                        let want = if cx.eps[i].addr == a { 1 } else { 0 };
+                        if let Some(n) = n {
+                            if *n != want {
+                                fail(format!("listener e{i} saw {n} connections, expected {want} (acc={})", fmt_acc(&acc)));
+                            }
+                        }
+                    }
+                }
+                (Some(a), _, _) => fail(format!("address {} is connectable but the connector returned {res}", cx.canon(&a))),
+                (None, Some(e), Out::Err(ConnectError::Io(got))) => {
+                    if got.raw_os_error() != e.raw_os_error() || got.kind() != e.kind() {
+                        fail(format!("all addresses fail: expected the last address's error {:?}, got {:?}", e.raw_os_error(), got.raw_os_error()));
+                    }
+                    if acc.iter().any(|n| matches!(n, Some(k) if *k > 0)) {
+                        fail(format!("failed connect but a listener accepted: acc={}", fmt_acc(&acc)));
+                    }
+                }
+                (None, Some(_), _) => fail(format!("all addresses fail but the connector returned {res}")),
+                (None, None, _) => {}
+            }
+        }
+        _ => fail(format!("unexpected result shape {res}")),
+    }
+    for m in fails {
+        rep.t3("C19", &m);
+    }
+    drop(r);
+    format!("lk={lk} res={res} acc={}", fmt_acc(&acc))
+}
+
+// ------------------------------------------------------------------------------------------------
+// generator
+// ------------------------------------------------------------------------------------------------
+
+fn gen_c19(a: &Args, w: &mut dyn Write) {
+    let mut rng = Rng::new(a.seed ^ 0xC19);
+    let thorough = a.tier == "thorough";
+    let dflt = {
+        use std::net::ToSocketAddrs;
+        let ips: Vec<String> = "localhost:0".to_socket_addrs().map(|i| i.map(|a| a.ip().to_string()).collect()).unwrap_or_default();
+        format!("dflt={}", ips.join(";"))
+    };
+    let mut n = 0;
+    // (1) every live/closed pattern of length 0..4, through the resolver, pre-set, and the bare TCP connector
+    for len in 0..=4usize {
+        for mask in 0..(1u32 << len) {
+            for fam in 0..(if thorough { 3 } else { 2 }) {
+                // fam 0: all v4; fam 1/2: random v4/v6 mix (makes the per-address errors differ under a local bind)
+                let kinds: Vec<&str> = (0..len)
+                    .map(|i| {
+                        let live = mask >> i & 1 == 1;
+                        let v6 = fam > 0 && rng.chance(1, 2);
+                        match (live, v6) {
+                            (true, false) => "L4",
+                            (false, false) => "C4",
+                            (true, true) => "L6",
+                            (false, true) => "C6",
+                        }
+                    })
+                    .collect();
+                n += 1;
+                writeln!(w, "case pat-{n} kind=conn eps={}", kinds.join(",")).unwrap();
+                let list: Vec<String> = (0..len).map(|i| format!("e{i}")).collect();
+                let l = list.join(";");
+                let locals: &[&str] = if fam == 0 { &[""] } else { &["", " local=127.0.0.1", " local=::1"] };
+                for loc in locals {
+                    writeln!(w, "conn full ok={l} s=pat.test:80{loc}").unwrap();
+                    writeln!(w, "conn full err s=pat.test:80 addrs={l}{loc}").unwrap();
+                    writeln!(w, "conn tcp err s=pat.test addrs={l}{loc}").unwrap();
+                    if len == 1 {
+                        writeln!(w, "conn full err s=pat.test with=e0{loc}").unwrap();
+                        writeln!(w, "conn tcp ok= h=pat.test,- addr=e0{loc}").unwrap();
+                    }
+                    writeln!(w, "conn resolve ok={l} s=pat.test:80{loc}").unwrap();
+                }
+            }
+        }
+    }
+    // (1b) all addresses fail with *different* errors: the answer must be the LAST one's
+    //      (IPv4-bound socket -> IPv6 target: 97; IPv6-bound -> IPv4 target: 22; refused: 111)
+    writeln!(w, "case lasterr kind=conn eps=C4,C6,C4,C6,L4,L6").unwrap();
+    for loc in ["127.0.0.1", "::1", "127.0.0.3"] {
+        for l in ["e0;e1", "e1;e0", "e0;e1;e2", "e1;e0;e3", "e0;e1;e2;e3", "e3;e2;e1;e0", "e1;e1;e0", "e0;e0;e1", "e5;e0", "e4;e1", "e1;e4", "e0;e5"] {
+            writeln!(w, "conn full ok={l} s=last.test:1 local={loc}").unwrap();
+            writeln!(w, "conn tcp err s=last.test addrs={l} local={loc}").unwrap();
+        }
+    }
+    // (2) host strings, ports, IP literals, precedence of request port / set_port / with_addr
+    let hosts = [
+        "lit.test", "lit.test:80", "lit.test:@0", "lit.test:+@0", "lit.test:0@0", "lit.test:false", "lit.test:false:false",
+        "lit.test:", ":@0", "~", "lit.test:65535", "lit.test:65536", "lit.test:-1", "127.0.0.1", "127.0.0.1:@0", "127.0.0.1:@1",
+        "127.0.0.1:x", "127.0.0.01:@0", "127.0.0.256:@0", "127.0.1:@0", "127.0.0.1.:@0", "127.0.0.2:@0", "localhost:@0", "localhost", "nx.invalid:@0",
+        "LIT.test:@0", "lit.test:@0:@1", "127.0.0.1:@0:9",
+    ];
+    for (k, h) in hosts.iter().enumerate() {
+        writeln!(w, "case host-{k} kind=conn eps=L4,C4,L6").unwrap();
+        for res in ["ok=e0", "ok=127.0.0.1:P", "ok=127.0.0.1:P;e0", "ok=", "err", dflt.as_str()] {
+            for steps in ["", " port=@0", " port=@1", " with=e0", " with=e1 port=@0", " addr=e0", " addrs=e1;e0 addr=none", " port=@1 port=@0"] {
+                for via in ["full", "resolve"] {
+                    // the OS resolver is only exercised for `localhost`, a name that cannot exist, and strict IPv4 literals
+                    // (getaddrinfo also accepts inet_aton forms such as 127.0.1, which is outside the claim)
+                    if res.starts_with("dflt") && !(h.starts_with("localhost") || h.starts_with("nx.invalid") || h.starts_with("127.0.0.1:@") || *h == "127.0.0.1" || h.starts_with("127.0.0.2:")) {
+                        continue;
+                    }
+                    writeln!(w, "conn {via} {res} s={h}{steps}").unwrap();
+                }
+            }
+        }
+        writeln!(w, "conn tcp err s={h}").unwrap();
+        writeln!(w, "conn tcp err s={h} port=@0").unwrap();
+    }
+    // custom Host impls: hostname and port independent of any string syntax (incl. an IPv6 literal)
+    let hs = ["c.test,-", "c.test,@0", "c.test,@1", "127.0.0.1,@0", "127.0.0.1,-", "::1,@2", "::1,-", "::1,@0", "c.test:99,@0", "~,@0"];
+    for (k, h) in hs.iter().enumerate() {
+        writeln!(w, "case chost-{k} kind=conn eps=L4,C4,L6").unwrap();
+        for res in ["ok=e0", "ok=::1:P;127.0.0.1:P", "ok=", "err"] {
+            for steps in ["", " port=@0", " port=@2", " with=e2", " addrs=e1;e2;e0", " local=127.0.0.1", " local=::1 port=@2"] {
+                for via in ["full", "resolve", "tcp"] {
+                    writeln!(w, "conn {via} {res} h={h}{steps}").unwrap();
+                }
+            }
+        }
+    }
+    // (3) random compositions
+    let cases = if thorough { 3000 } else { 300 };
+    let kinds = ["L4", "C4", "L6", "C6"];
+    for c in 0..cases {
+        let ne = rng.range(1, 5);
+        let eps: Vec<&str> = (0..ne).map(|_| *rng.pick(&kinds)).collect();
+        writeln!(w, "case rnd-{c} kind=conn eps={}", eps.join(",")).unwrap();
+        let addr = |rng: &mut Rng| format!("e{}", rng.below(ne));
+        let addrs = |rng: &mut Rng, max: usize| {
+            let k = rng.below(max + 1);
+            (0..k).map(|_| format!("e{}", rng.below(ne))).collect::<Vec<_>>().join(";")
+        };
+        for _ in 0..rng.range(2, 6) {
+            let via = *rng.pick(&["full", "full", "full", "resolve", "tcp"]);
+            let res = match rng.below(6) {
+                0 => "err".to_string(),
+                1 => "ok=".to_string(),
+                2 => format!("ok=127.0.0.1:P;{}", addrs(&mut rng, 2)),
+                _ => format!("ok={}", addrs(&mut rng, 4)),
+            };
+            let host = match rng.below(8) {
+                0 => format!("s=127.0.0.1:@{}", rng.below(ne)),
+                1 => "s=127.0.0.1".to_string(),
+                2 => format!("h=::1,@{}", rng.below(ne)),
+                3 => format!("s=r.test:@{}", rng.below(ne)),
+                4 => format!("h=r.test,@{}", rng.below(ne)),
+                5 => "s=r.test:bad".to_string(),
+                _ => "s=r.test".to_string(),
+            };
+            let mut steps = String::new();
+            if rng.chance(1, 6) {
+                steps.push_str(&format!(" with={}", addr(&mut rng)));
+            }
+            for _ in 0..rng.below(3) {
+                match rng.below(5) {
+                    0 => steps.push_str(&format!(" port=@{}", rng.below(ne))),
+                    1 => steps.push_str(&format!(" addr={}", if rng.chance(1, 4) { "none".to_string() } else { addr(&mut rng) })),
+                    2 => steps.push_str(&format!(" addrs={}", addrs(&mut rng, 4))),
+                    3 => steps.push_str(*rng.pick(&[" local=127.0.0.1", " local=::1", " local=127.0.0.2", " local=198.51.100.7"])),
+                    _ => {}
+                }
+            }
+            writeln!(w, "conn {via} {res} {host}{steps}").unwrap();
+        }
+        // malformed
+        if rng.chance(1, 10) {
+            writeln!(w, "{}", rng.pick(&["conn", "conn full", "conn x err s=a", "conn full ok=e9 s=a", "conn full err q=a", "conn full err s=a with", "conn full err s=a port=70000", "frob"])).unwrap();
+        }
+    }
+}
+
+fn gen(a: &Args) {
+    let mut w = out_writer(&a.output);
+    match a.prop.as_str() {
+        "C19" => gen_c19(a, &mut *w),
+        _ => {}
+    }
+    w.flush().unwrap();
+}
+
+// ------------------------------------------------------------------------------------------------
+// run
+// ------------------------------------------------------------------------------------------------
+
+enum Case {
+    None,
+    Conn(Ctx),
+}
+
+fn run(a: &Args) {
+    silence_panics();
+    let mut rep = Report::new(&a.output);
+    let rt = tokio::runtime::Builder::new_current_thread().enable_all().build().unwrap();
+    let mut case = Case::None;
+    for line in in_lines(&a.input) {
+        let ws: Vec<&str> = line.split_whitespace().collect();
+        let real: String = match ws.as_slice() {
+            ["case", _name, rest @ ..] => {
+                case = Case::None;
+                let kv: std::collections::HashMap<&str, &str> = rest.iter().filter_map(|x| x.split_once('=')).collect();
+                match kv.get("kind").copied() {
+                    Some("conn") => {
+                        let kinds: Option<Vec<EpKind>> = kv.get("eps").copied().unwrap_or("").split(',').filter(|x| !x.is_empty()).map(parse_kind).collect();
+                        match kinds {
+                            Some(ks) if ks.len() <= 8 && rest.len() == 2 => {
+                                let mut taken = vec![];
+                                let eps: std::io::Result<Vec<Ep>> = ks
+                                    .into_iter()
+                                    .map(|k| {
+                                        let e = make_ep(k, &taken)?;
+                                        taken.push(e.addr.port());
+                                        Ok(e)
+                                    })
+                                    .collect();
+                                match eps {
+                                    Ok(eps) => {
+                                        case = Case::Conn(Ctx { eps });
+                                        "ok".into()
+                                    }
+                                    Err(e) => {
+                                        rep.note(&format!("cannot set up endpoints: {e}"));
+                                        "env-error".into()
+                                    }
+                                }
+                            }
+                            _ => "bad-op".into(),
+                        }
+                    }
+                    _ => "bad-op".into(),
+                }
+            }
+            ["conn", ..] => match &case {
+                Case::Conn(cx) => match parse_conn_op(cx, &ws) {
+                    Some(op) => run_conn_op(&rt, cx, &op, &mut rep),
+                    None => "bad-op".into(),
+                },
+                _ => "bad-op".into(),
+            },
+            _ => "bad-op".into(),
+        };
+        rep.obs(&line, &real);
+    }
+    rep.finish();
+}
+
+fn main() {
+    let a = parse_args();
+    match a.cmd.as_str() {
+        "gen" => gen(&a),
+        "run" => run(&a),
+        _ => {
+            eprintln!("usage: tls gen|run ...");
+            std::process::exit(2)
+        }
+    }
+}
